@@ -11,8 +11,9 @@ CONSTANTS
   Pads = {0, 1, 2, 3, 4, 5, 6, 7}
   Props = {0, 77, 84}
   CtlFroms = {4, 9}
-  CtlSizes = {2}
-  CtlTypes = {2}
+  MemSizes = {2}
+  LockBits = {12}
+  CtlTypes = {1, 2}
   TwoCtl = FALSE
   OldLens = {0, 1, 4, 5, 9}
 INVARIANT FxAtomic
